@@ -14,8 +14,13 @@ Variable dec_field : hstate -> N -> bytes -> dec_res hstate.
 Variable enc_field : hstate -> bytes -> bytes -> bool -> bytes * hstate.
 Variable enc_set_max : hstate -> N -> hstate.
 Variable cfg : config.
+(* the stream the step is about *)
+Variable own : N.
 Notation sconn := (sconn hstate).
 Implicit Types c : sconn.
+Local Notation tr := (tr own).
+Local Notation hmv := (hmv own).
+Local Notation hmvs := (hmvs own).
 
 (* ---------- quiet updates ---------- *)
 Ltac hsame_tac :=
@@ -125,7 +130,7 @@ Proof. intro H. exists s. destruct (strms_search_In _ _ _ H) as [_ E]. rewrite E
 Lemma wk_hsame k c c' s : hsame c c' -> wk k c s -> wk k c' s.
 Proof. intros (_ & _ & _ & _ & E & _) (s0 & H & T). exists s0. rewrite E. auto. Qed.
 Lemma wk_tr k c s x : wk k c s -> tr k s x -> wk k c x.
-Proof. intros (s0 & H & T) T2. exists s0. rewrite (tr_id _ _ _ T2). split; [assumption | eapply tr_trans; eassumption]. Qed.
+Proof. intros (s0 & H & T) T2. exists s0. rewrite (tr_id _ _ _ _ T2). split; [assumption | eapply tr_trans; eassumption]. Qed.
 
 Lemma hmvs_put k c x : wk k c x -> hmvs k c (put c x).
 Proof. intros (s0 & H & T). apply hmvs_one. eapply hmv_put; eassumption. Qed.
@@ -181,7 +186,7 @@ Proof.
   destruct (send_data c s) as [[c1 s1] fin]. cbn [fst snd] in *.
   destruct (strms_search_In _ _ _ E) as [Is Ei].
   assert (W1 : wk k c1 s1). { eapply wk_hsame; [exact L|]. eapply wk_tr; [eapply wk_found; exact E | exact T]. }
-  assert (R1 : st_responded s1 = true) by (destruct T as (_ & _ & T3 & _); auto).
+  assert (R1 : st_responded s1 = true) by (eapply tr_responded; eassumption).
   destruct (IH (put c1 s1) (if fin then done ++ [id] else done)) as [M Rn].
   - intro K. destruct (R K) as [ND Rd]. destruct L as (_ & _ & _ & _ & ES & _).
     rewrite sc_strms_put, strms_put_ids, ES. split; [exact ND|].
@@ -263,10 +268,10 @@ Lemma hmvs_after_frame k c s fr wc : inT c s -> (wc = true -> sc_closing c = tru
   hmvs k (put c s) (fst (after_frame cfg c s fr wc)).
 Proof.
   intros I WC OK. unfold after_frame.
-  pose proof (tr_handle_state k fr s OK) as T1. set (s1 := handle_state fr s) in *.
+  pose proof (tr_handle_state own k fr s OK) as T1. set (s1 := handle_state fr s) in *.
   assert (OK1 : st_state s1 = SClosed -> close_ok k s1).
-  { intros E K Hf. rewrite (tr_hf _ _ _ T1) in Hf. destruct (OK E K Hf) as [W|R]; [left | right].
-    - destruct T1 as (_ & _ & _ & _ & _ & T6 & _). auto.
+  { intros E K Hf. rewrite (tr_hf _ _ _ _ T1) in Hf. destruct (OK E K Hf) as [W|R]; [left | right].
+    - destruct T1 as (_ & _ & _ & _ & _ & _ & T6 & _). auto.
     - eapply tr_responded; eassumption. }
   clearbody s1.
   assert (FIN : forall c2 x, hsame c c2 -> tr k s x -> (st_state x = SClosed -> close_ok k x) ->
@@ -429,10 +434,10 @@ Qed.
 (* ---------- handle_frame on anything but HEADERS / CONTINUATION ---------- *)
 Definition is_hdr_kind (k : fkind) : bool := fkind_eqb k KHeaders || fkind_eqb k KCont.
 
-Lemma handle_frame_other k c s fr : is_hdr_kind (sf_kind fr) = false ->
+Lemma handle_frame_other k c s fr : is_hdr_kind (sf_kind fr) = false -> (sf_kind fr = KData -> st_id s = own) ->
   hsame c (fst (fst (handle_frame dec_field cfg c s fr))) /\ tr k s (snd (fst (handle_frame dec_field cfg c s fr))) /\ (forall code, snd (handle_frame dec_field cfg c s fr) = Some (EGoAway code) -> (code =? c_NoError) = false) /\ snd (handle_frame dec_field cfg c s fr) <> Some EPanic.
 Proof.
-  intro NK. unfold handle_frame.
+  intros NK EO. unfold handle_frame.
   destruct (verify_state s fr) as [e|] eqn:V.
   { cbn [fst snd]. split; [apply hsame_refl|]. split; [apply tr_refl|]. split.
     - intros code Ec. inversion Ec; subst. unfold verify_state in V.
@@ -444,7 +449,7 @@ Proof.
   destruct (sf_kind fr); try discriminate NK;
   repeat match goal with |- context [if ?b then _ else _] => destruct b end; cbn [fst snd];
   (split; [first [apply hsame_refl | apply hsame_credit_conn_window | apply hsame_consume_recv_window]|]);
-  (split; [first [apply tr_refl | apply tr_set_recv | apply tr_set_window]|]);
+  (split; [first [apply tr_refl | apply tr_set_recv; apply EO; reflexivity | apply tr_set_window]|]);
   (split; [intros code Ec; inversion Ec; reflexivity | intro Ec; discriminate Ec]).
 Qed.
 
@@ -469,12 +474,12 @@ Definition fwork (c1 : sconn) (s : stream) (fr : sframe) (wasClosing : bool) : s
   | inr c2 => ftail c2 s fr wasClosing
   end.
 
-Lemma hmvs_ftail_other k c s fr wc : is_hdr_kind (sf_kind fr) = false -> wk k c s -> (wc = true -> sc_closing c = true) ->
+Lemma hmvs_ftail_other k c s fr wc : is_hdr_kind (sf_kind fr) = false -> (sf_kind fr = KData -> st_id s = own) -> wk k c s -> (wc = true -> sc_closing c = true) ->
   (k = true -> st_headersFinished s = true) ->
   hmvs k c (fst (ftail c s fr wc)).
 Proof.
-  intros NK W WC HF. unfold ftail.
-  destruct (handle_frame_other k c s fr NK) as (L & T & NE & NP).
+  intros NK EO W WC HF. unfold ftail.
+  destruct (handle_frame_other k c s fr NK EO) as (L & T & NE & NP).
   destruct (handle_frame dec_field cfg c s fr) as [[c3 s3] e]. cbn [fst snd] in *.
   assert (W3 : wk k c3 s3) by (eapply wk_hsame; [exact L|]; eapply wk_tr; eassumption).
   eapply hmvs_trans; [apply hmvs_same; exact L|].
@@ -482,7 +487,7 @@ Proof.
   apply hmvs_ftail_rest.
   - eapply wk_inT. exact W3.
   - rewrite (hsame_closing _ _ L). exact WC.
-  - intros _ _ K Hf. rewrite (tr_hf _ _ _ T), (HF K) in Hf. discriminate.
+  - intros _ _ K Hf. rewrite (tr_hf _ _ _ _ T), (HF K) in Hf. discriminate.
   - intros code Ec. apply NE. exact Ec.
 Qed.
 
@@ -518,10 +523,10 @@ Definition no_open_block (k : bool) c : Prop :=
 Lemma hmvs_goaway_cont k c sid code : hmvs k c (fst (cont (write_goaway c sid code))).
 Proof. cbn [cont fst]. apply hmvs_one, hm_goaway. Qed.
 
-Theorem hmvs_sl_frame_other k c fr : is_hdr_frame fr = false -> no_open_block k c ->
+Theorem hmvs_sl_frame_other k c fr : is_hdr_frame fr = false -> (sf_kind fr = KData -> sf_sid fr = own) -> no_open_block k c ->
   hmvs k c (fst (sl_frame dec_field enc_set_max cfg c fr)).
 Proof.
-  intros NH PRE. unfold sl_frame. unfold is_hdr_frame in NH.
+  intros NH EO PRE. unfold sl_frame. unfold is_hdr_frame in NH.
   destruct (sf_sid fr =? 0) eqn:Z0.
   { (* connection-level frames *)
     destruct (sf_kind fr); try (cbn [cont fst]; constructor).
@@ -538,14 +543,14 @@ Proof.
         destruct BS as (lq & E & F2). cbn [fst app] in E. subst lB.
         set (c1 := upd_initWin c0 (signed 32 (sf_set_win fr))) in *.
         eapply hmvs_trans; [apply hmvs_same, (hsame_upd_initWin c0 (signed 32 (sf_set_win fr)))|]. fold c1.
-        eapply hmvs_trans; [apply hmvs_one, (hm_map _ k c1 lq); exact F2|].
+        eapply hmvs_trans; [apply hmvs_one, (hm_map _ own k c1 lq); exact F2|].
         destruct over.
         * eapply hmvs_trans; [apply hmvs_one; apply hm_goaway with (sid := 0) (code := c_FlowControlError)|].
           apply hmvs_one, hm_brk. apply sc_closing_write_goaway.
         * cbn [cont fst].
           eapply hmvs_trans; [apply hmvs_same, (hsame_emit (upd_strms c1 lq) OSettingsAck)|].
           apply hmvs_flush_streams. intro K. destruct (PRE K) as [ND _].
-          rewrite sc_strms_emit. sc_cbn. rewrite (Forall2_tr_ids _ _ _ F2). unfold c1. sc_cbn.
+          rewrite sc_strms_emit. sc_cbn. rewrite (Forall2_tr_ids _ _ _ _ F2). unfold c1. sc_cbn.
           rewrite (hsame_strms _ _ L0). exact ND.
       + cbn [cont fst]. apply hmvs_same, hsame_emit.
     - (* WINDOW_UPDATE *)
@@ -565,7 +570,7 @@ Proof.
   destruct (if sf_sid fr <=? sc_lastID c then strms_search (sc_strms c) (sf_sid fr) else None) as [s|] eqn:Found.
   { (* a stream of the table *)
     rewrite FW. assert (SS : strms_search (sc_strms c) (sf_sid fr) = Some s) by (destruct (_ <=? _); [exact Found | discriminate]).
-    apply hmvs_ftail_other; [exact NH | eapply wk_found; exact SS | auto|].
+    apply hmvs_ftail_other; [exact NH | intro KD; destruct (strms_search_In _ _ _ SS) as [_ Ei]; rewrite Ei; auto | eapply wk_found; exact SS | auto|].
     intro K. destruct (PRE K) as [_ HF]. apply HF. apply strms_search_In in SS. tauto. }
   destruct (fkind_eqb (sf_kind fr) KRst).
   { destruct (_ && _)%bool; [apply hmvs_goaway_cont | constructor]. }
